@@ -1,6 +1,7 @@
 package verifharness
 
 import (
+	"bytes"
 	"sync"
 	"testing"
 
@@ -97,6 +98,15 @@ func genRedactableish(rt *rapid.T, label string) []byte {
 func TestC07Laws(t *testing.T) {
 	rapidCheck(t, "C07Laws", func(rt *rapid.T) interface{} {
 		s := &RStr{S: genRedactableish(rt, "s")}
+		if rapid.IntRange(0, 29).Draw(rt, "reasm") == 13 {
+			// otherwise valid text of some size with one spot where removing a
+			// marker joins the bytes around it into a marker again
+			pat := [][]byte{[]byte("\xe2" + startS + "\x80\xb9"), []byte("\xe2\x80" + endS + "\xba"), []byte("\xe2" + endS + "\x80\xba"), []byte("\xe2\xe2" + startS + "\x80\xb9\x80\xb9")}[rapid.IntRange(0, 3).Draw(rt, "pat")]
+			n := []int{0, 10, 500, 1020, 1100, 4090, 4200, 70000}[rapid.IntRange(0, 7).Draw(rt, "fill")]
+			fill := bytes.Repeat([]byte("filler "), n/7+1)[:n]
+			at := rapid.IntRange(0, n).Draw(rt, "at")
+			s.S = append(append(append([]byte(nil), fill[:at]...), pat...), fill[at:]...)
+		}
 		if rapid.Bool().Draw(rt, "two") {
 			s.S2 = genRedactableish(rt, "s2")
 		}
